@@ -115,6 +115,17 @@ const witnessDecimalImport = `module w54 {
   container c { leaf u { type union { type string; type decimal64 { fraction-digits 2; } } } }
 }`
 
+const witnessDupKeyMsg = `module w56 {
+  namespace "urn:w56"; prefix w;
+  container a { list slot { key "id"; leaf id { type string; } } }
+  container b { list slot { key "id"; leaf id { type string; } } }
+}`
+
+const witnessUnionEnumRef = `module w57 {
+  namespace "urn:w57"; prefix w;
+  container c { leaf-list id { type union { type enumeration { enum A; enum B; } type uint8; } } }
+}`
+
 const witnessRootPkgA = `module w55a {
   namespace "urn:w55a"; prefix a;
   container alpha { container config { leaf x { type string; } } container state { config false; leaf x { type string; } } }
@@ -177,6 +188,8 @@ func registerC28Witnesses(rec *ev.Rec, t *testing.T) {
 			probs, _ := checkWellFormed(po, f)
 			return has(probs, "link:unresolved", `type "Beta" is not defined in scope "openconfig.Device"`)
 		})
+		run(fDupKeyMsg, "w56", witnessDupKeyMsg, func(f *protoFlags) { f.Hierarchy = true }, "link:duplicate-symbol", `"openconfig.w56.SlotKey" (message) is already defined as message`)
+		run(fUnionEnumRef, "w57", witnessUnionEnumRef, func(f *protoFlags) { f.Hierarchy = true }, "link:unresolved", `type "IdEnum" is not defined in scope "openconfig.w57.IdUnion"`)
 		run(fSingletonEnum, "w44", witnessSingletonEnum, nil, "link:unresolved", `type "UEnum" is not defined`)
 	})
 }
